@@ -34,6 +34,7 @@ Definition mt_RotateLeft W I := [m_RotateLeft (gi W 0) (gi W 1) (gi W 2) (gi I 0
 (* W = [wa; wr] *)
 Definition mt_Neg W I := [m_Neg (gi W 1) (gi I 0)].
 Definition mt_Abs W I := [m_Abs (gi W 0) (gi W 1) (gi I 0)].
+Definition mt_Abs_inv W I := [m_Abs (gi W 0) (gi W 1) (gi I 0); m_Sign (gi W 0) (gi I 0)].
 Definition mt_Sign W I := [m_Sign (gi W 0) (gi I 0)].
 Definition mt_SignExtend W I := [SignExtend_propagate (gi W 0) (gi W 1) (gi I 0)].
 Definition mt_ZeroExtend W I := [ZeroExtend_propagate (gi W 1) (gi I 0)].
